@@ -1,11 +1,14 @@
 // Package triekv binds spec/TrieKV.tla (generator) and spec/TraceTrieKV.tla (validator) to the real
 // store/trie.Trie / SecureTrie over store.TrieDatabase over the BeansDB-backed chain database (C17).
 //
-// Every spec action is one call of the real API on the trie under test.  After every step the
-// adapter logs what the real code exposes, observed through an independent copy of the trie object
-// (node graphs are persistent, so the copy shares the nodes but hashing / loading in the copy does
-// not rewrite the trie under test): the root hash, TryGet of every key, the node paths enumerated by
-// NodeIterator.  The adapter never compares anything with the spec state.
+// Every spec action is one call of the real API on one of the trie HANDLES (Go objects) of the behaviour:
+// the trie it starts with, copies (SecureTrie.Copy / struct copy of a Trie), tries opened from the same or an
+// older committed root through the same TrieDatabase.  After every step the adapter logs what the real code
+// exposes for EVERY live handle ("obs") and for a snapshot - a copy of the handle operated on, taken just
+// before the call ("pre") -, each observed through an independent copy of the trie object (node graphs are
+// persistent, so the copy shares the nodes but hashing / loading in the copy does not rewrite the trie under
+// test): the root hash, TryGet of every key, the node paths enumerated by NodeIterator.  The adapter never
+// compares anything with the spec state.
 package triekv
 
 import (
@@ -197,7 +200,7 @@ type adapter struct {
 	dir   string
 	cdb   *store.ChainDatabase
 	tdb   *store.TrieDatabase
-	t     handle
+	ts    map[int]handle // live handles by slot (spec: live, kv[h])
 	kind  string
 	lim   int
 	keys  []string               // key ids in use (domain of the spec's kv)
@@ -286,14 +289,21 @@ func (a *adapter) Reset(init map[string]tla.Value) (engine.Fields, error) {
 	a.kind, a.lim = init["kind"].S(), init["lim"].I()
 	a.keys = nil
 	for _, id := range keyIDs {
-		if init["kv"].Has(id) {
+		if init["kv"].GetI(1).Has(id) {
 			a.keys = append(a.keys, id)
 		}
 	}
 	a.roots = map[string]common.Hash{}
-	var err error
-	if a.t, err = open(a.kind, common.Hash{}, a.tdb, a.lim); err != nil {
-		return nil, err
+	a.ts = map[int]handle{}
+	for _, h := range init["live"].Ints() {
+		if c := content(init["kv"].GetI(h)); c != emptyContent(a.keys) {
+			engine.Failf("behaviour starts with a non-empty trie in handle %d: %s", h, c)
+		}
+		t, err := open(a.kind, common.Hash{}, a.tdb, a.lim)
+		if err != nil {
+			return nil, err
+		}
+		a.ts[h] = t
 	}
 	fl := engine.Fields{"kind": a.kind, "lim": a.lim, "keys": a.keys, "err": ""}
 	paths := map[string][]int{}
@@ -301,14 +311,24 @@ func (a *adapter) Reset(init map[string]tla.Value) (engine.Fields, error) {
 		paths[id] = a.path(id)
 	}
 	fl["paths"] = paths
-	a.observe(fl)
+	a.observeAll(fl)
 	return fl, nil
 }
 
-// observe logs root, reads and node paths through an independent copy of the trie object.
-func (a *adapter) observe(fl engine.Fields) {
-	fl["root"] = a.t.observer().hash().Hex()
-	o := a.t.observer()
+func emptyContent(keys []string) string {
+	var parts []string
+	for _, id := range keys {
+		parts = append(parts, id+"=none")
+	}
+	return strings.Join(parts, ",")
+}
+
+// observe reads root, TryGet of every key and the node paths of one trie object, each through an independent
+// copy of the object.
+func (a *adapter) observe(h int, t handle) map[string]interface{} {
+	fl := map[string]interface{}{"h": h}
+	fl["root"] = t.observer().hash().Hex()
+	o := t.observer()
 	reads := []string{} // in the order of "keys" of the reset event
 	for _, id := range a.keys {
 		v, err := o.get(a.key(id))
@@ -322,7 +342,7 @@ func (a *adapter) observe(fl engine.Fields) {
 	// node paths, each projected to one number: length and the first 5 nibbles
 	// (code = len*2000000 + sum nibble_i * 17^(5-i); TraceTrieKV.Code is the same projection of the spec's paths)
 	shape := []int{}
-	it := a.t.observer().iter()
+	it := t.observer().iter()
 	for it.Next(true) {
 		p := it.Path()
 		code := 0
@@ -338,6 +358,21 @@ func (a *adapter) observe(fl engine.Fields) {
 		fl["itererr"] = it.Error().Error()
 	}
 	fl["shape"] = shape
+	return fl
+}
+
+// observeAll logs every live handle, in slot order.
+func (a *adapter) observeAll(fl engine.Fields) {
+	var hs []int
+	for h := range a.ts {
+		hs = append(hs, h)
+	}
+	sort.Ints(hs)
+	obs := []interface{}{}
+	for _, h := range hs {
+		obs = append(obs, a.observe(h, a.ts[h]))
+	}
+	fl["obs"] = obs
 }
 
 type attempt struct {
@@ -414,44 +449,77 @@ func errStr(err error) string {
 	return err.Error()
 }
 
+// live returns the trie in slot h; the spec only operates on live handles.
+func (a *adapter) live(h int) handle {
+	t, ok := a.ts[h]
+	if !ok {
+		engine.Failf("handle %d is not live", h)
+	}
+	return t
+}
+
+func (a *adapter) free(h int) {
+	if _, ok := a.ts[h]; ok {
+		engine.Failf("handle slot %d is in use", h)
+	}
+}
+
 func (a *adapter) Apply(s engine.Step) (engine.Fields, error) {
 	arg := s.Act.Args
 	fl := engine.Fields{"err": ""}
+	post := s.Post()
+	// the snapshot: a copy of the object operated on (read from), taken before the call and observed after it
+	var snap handle
+	snapOf := 0
+	take := func(h int) handle {
+		t := a.live(h)
+		snap, snapOf = t.observer(), h
+		return t
+	}
 	switch s.Act.Name {
 	case "Put":
-		v, ok := valBytes[arg[1].S()]
+		t := take(arg[0].I())
+		v, ok := valBytes[arg[2].S()]
 		if !ok || len(v) == 0 {
-			engine.Failf("unknown value id %s", arg[1].S())
+			engine.Failf("unknown value id %s", arg[2].S())
 		}
-		fl["err"] = errStr(a.t.update(a.key(arg[0].S()), common.CopyBytes(v)))
+		fl["err"] = errStr(t.update(a.key(arg[1].S()), common.CopyBytes(v)))
 	case "Remove":
-		if arg[1].S() == "delete" {
-			fl["err"] = errStr(a.t.remove(a.key(arg[0].S())))
+		t := take(arg[0].I())
+		if arg[2].S() == "delete" {
+			fl["err"] = errStr(t.remove(a.key(arg[1].S())))
 		} else {
-			fl["err"] = errStr(a.t.update(a.key(arg[0].S()), []byte{}))
+			fl["err"] = errStr(t.update(a.key(arg[1].S()), []byte{}))
 		}
 	case "Get":
-		v, err := a.t.get(a.key(arg[0].S()))
+		t := take(arg[0].I())
+		v, err := t.get(a.key(arg[1].S()))
 		fl["err"], fl["val"] = errStr(err), valID(v)
 	case "Hash":
-		fl["ret"] = a.t.hash().Hex()
+		t := take(arg[0].I())
+		fl["ret"] = t.hash().Hex()
 	case "Commit":
-		root, err := a.t.commit()
+		h := arg[0].I()
+		t := take(h)
+		root, err := t.commit()
 		fl["err"], fl["ret"] = errStr(err), root.Hex()
 		if err == nil {
-			a.roots[content(s.Post()["kv"])] = root
-			if arg[0].B() {
+			a.roots[content(post["kv"].GetI(h))] = root
+			if arg[1].B() {
 				fl["err"] = errStr(a.tdb.Commit(root, false))
 			}
 		}
 	case "Reopen":
-		c := content(s.Post()["kv"])
+		h, mode := arg[0].I(), arg[2].S()
+		a.live(h)
+		c := content(post["kv"].GetI(h))
 		root, ok := a.roots[c]
 		if !ok {
 			engine.Failf("Reopen of a content the real trie never committed: %s", c)
 		}
-		switch arg[1].S() {
+		switch mode {
 		case "same":
+			take(h) // the replaced object stays a valid trie of its content
 		case "fresh":
 			a.tdb = a.cdb.GetTrieDatabase()
 		case "restart":
@@ -459,25 +527,67 @@ func (a *adapter) Apply(s engine.Step) (engine.Fields, error) {
 			a.cdb = store.NewChainDataBase(a.dir)
 			a.tdb = a.cdb.GetTrieDatabase()
 		default:
-			engine.Failf("unknown reopen mode %s", arg[1].S())
+			engine.Failf("unknown reopen mode %s", mode)
+		}
+		if mode != "same" { // a new TrieDatabase is the end of all other handles
+			a.ts = map[int]handle{h: a.ts[h]}
 		}
 		t, err := open(a.kind, root, a.tdb, a.lim)
 		fl["err"], fl["from"] = errStr(err), root.Hex()
-		fl["c"] = s.Post()["kv"].JSON() // which committed content the harness asked the real code to reopen
+		fl["c"] = post["kv"].GetI(h).JSON() // which committed content the harness asked the real code to reopen
 		if err != nil {
-			return fl, nil // the trace spec rejects the event; nothing sensible to observe
+			// the spec only reopens what the real code committed: nothing sensible to go on with
+			engine.Realf("%s: opening the committed root %x of content {%s} failed: %v", s.Act.String(), root, c, err)
 		}
-		a.t = t
+		a.ts[h] = t
 	case "ProveAll":
-		root, ok := a.roots[content(s.Post()["kv"])]
+		h := arg[0].I()
+		take(h)
+		root, ok := a.roots[content(post["kv"].GetI(h))]
 		if !ok {
 			engine.Failf("ProveAll on a content the real trie never committed")
 		}
 		fl["proofs"] = a.proveAll(root)
+	case "Copy":
+		src, dst := arg[0].I(), arg[1].I()
+		a.free(dst)
+		a.ts[dst] = take(src).observer() // SecureTrie.Copy() / struct copy of the Trie
+	case "Open", "OpenOld":
+		dst := arg[0].I()
+		a.free(dst)
+		if s.Act.Name == "Open" {
+			take(arg[1].I())
+		}
+		c := content(post["kv"].GetI(dst))
+		root, ok := a.roots[c]
+		if !ok {
+			engine.Failf("%s of a content the real trie never committed: %s", s.Act.Name, c)
+		}
+		t, err := open(a.kind, root, a.tdb, a.lim)
+		fl["err"], fl["from"] = errStr(err), root.Hex()
+		fl["c"] = post["kv"].GetI(dst).JSON()
+		if err != nil {
+			engine.Realf("%s: opening the committed root %x of content {%s} failed: %v", s.Act.String(), root, c, err)
+		}
+		a.ts[dst] = t
+	case "Close":
+		a.live(arg[0].I())
+		delete(a.ts, arg[0].I())
 	default:
 		return nil, fmt.Errorf("unknown action %s", s.Act.Name)
 	}
-	a.observe(fl)
+	// the harness's handle table follows the spec's
+	want := post["live"].Ints()
+	if len(want) != len(a.ts) {
+		engine.Failf("live handles %v after %s, harness has %d", want, s.Act.String(), len(a.ts))
+	}
+	for _, h := range want {
+		a.live(h)
+	}
+	if snap != nil {
+		fl["pre"] = a.observe(snapOf, snap)
+	}
+	a.observeAll(fl)
 	return fl, nil
 }
 
